@@ -58,11 +58,25 @@ func genC02(r *gen.Rand, maxLayers int) *C02Case {
 	}
 	// an unrelated chain, loaded first (a second command-line input)
 	other := r.Chance(0.2)
+	nOther := 0
 	if other {
 		doc := tc.Map(r, 2)
 		doc["name"] = "m0"
 		doc["kind"] = gen.PickAny(r, c02Kinds)
 		add(wire.Op{Op: "MergeDocument", ID: "M0|doc0", Data: &wire.Tree{V: doc}}, 1, 0)
+		nOther = 1
+		if r.Chance(0.4) {
+			// a whole stream of unrelated documents of a kind of their own:
+			// a pattern can then match several documents outside its lineage only
+			nAux := r.Range(2, 6)
+			for k := 1; k <= nAux; k++ {
+				d := tc.Map(r, 1)
+				d["name"] = fmt.Sprintf("m%d", k)
+				d["kind"] = "aux"
+				add(wire.Op{Op: "MergeDocument", ID: fmt.Sprintf("M0|doc%d", k), Data: &wire.Tree{V: d}}, 1, 0)
+				nOther++
+			}
+		}
 	}
 	nBase := r.Range(1, 4)
 	bigIDs := !c.FileRoute && r.Chance(0.25)
@@ -288,6 +302,9 @@ func genC02(r *gen.Rand, maxLayers int) *C02Case {
 					patch["$match"] = map[string]any{"kind": gen.PickAny(r, c02Kinds)}
 				case 2:
 					patch["$match"] = map[string]any{"kind": "none"}
+					if nOther > 1 && r.Chance(0.7) {
+						patch["$match"] = map[string]any{"kind": "aux"}
+					}
 				case 3:
 					patch["$match"] = nil
 					patch["name"] = fmt.Sprintf("x%d%d", l, d)
